@@ -25,6 +25,12 @@ ASSUMPTIONS = ["64-bit usize", "A1: fewer than 2^32 - 1 samples per track / entr
 BYTE_ELEMS = ("u8",)
 
 
+def _kname(fn):
+    """function name for semantic keys: closure ordinals are dropped (they shift when an unrelated closure is added)"""
+    import re as _re
+    return _re.sub(r"\{closure#\d+\}", "{closure}", mir.norm(fn))
+
+
 def narrowing(frm, to):
     rf, rt = A.INT_RANGE.get(frm), A.INT_RANGE.get(to)
     if rf is None or rt is None:
@@ -191,7 +197,7 @@ def check(prog, run):
             ia, ic = cx.interval(a), cx.interval(c)
             if r is None:
                 continue
-            base = "%s shl %s << %s" % (mir.norm(p), sym.show(a)[:60], sym.show(c)[:20])
+            base = "%s shl %s << %s" % (_kname(p), sym.show(a)[:60], sym.show(c)[:20])
             seen[base] = seen.get(base, 0) + 1
             key = base + (" #%d" % seen[base] if seen[base] > 1 else "")
             counts["R3"] += 1
@@ -210,7 +216,7 @@ def check(prog, run):
         e = sym.expr(b, node)
         cx._at = bb
         rule = "R1" if kind == "cast" else "R2"
-        base = "%s cast %s->%s %s" % (mir.norm(p), frm, to, sym.show(e)[:70])
+        base = "%s cast %s->%s %s" % (_kname(p), frm, to, sym.show(e)[:70])
         seen[base] = seen.get(base, 0) + 1
         key = base + (" #%d" % seen[base] if seen[base] > 1 else "")
         counts[rule] += 1
